@@ -65,6 +65,9 @@ func genHistory(r *rand.Rand, g *wsclient.Gen, seed int64) *history {
 		DefMode:        r.Intn(3),
 		Modes:          map[string]int{},
 	}
+	if r.Intn(2) == 0 {
+		h.Cfg.WriteThenReadUS = 500 + r.Intn(2500)
+	}
 	for _, c := range []string{"n", "s", "obj", "items", "plain", "nums", "grid", "ku", "pu", "kulist", "ulist", "slow", "exp", "boom", "kids:0", "kids:1"} {
 		if r.Intn(3) == 0 {
 			h.Cfg.Modes[c] = r.Intn(3)
@@ -135,6 +138,22 @@ func genHistory(r *rand.Rand, g *wsclient.Gen, seed int64) *history {
 				delete(live, id)
 				h.Steps = append(h.Steps, wsclient.Step{Kind: "unsub", ID: id, Wait: r.Intn(3) == 0, PauseUS: pause(r)})
 			}
+		case x < 31 && x >= 28: // unsubscribe shortly after an invalidation of an idle, already-run subscription
+			pf := prefer()
+			if len(lids) == 0 || len(pf) == 0 {
+				continue
+			}
+			d := h.Cfg.WriteThenReadUS
+			if d == 0 {
+				d = 400
+			}
+			h.Steps = append(h.Steps, wsclient.Step{Kind: "idle"})
+			h.Steps = append(h.Steps, wsclient.Step{Kind: "write", Op: g.OpOn(pf[r.Intn(len(pf))]), PauseUS: 40 + r.Intn(d)})
+			for _, id := range lids {
+				delete(live, id)
+				h.Steps = append(h.Steps, wsclient.Step{Kind: "unsub", ID: id})
+			}
+			h.Steps = append(h.Steps, wsclient.Step{Kind: "sync", PauseUS: 2 * d})
 		case x < 28: // unsubscribe of an id that is not live
 			seq++
 			h.Steps = append(h.Steps, wsclient.Step{Kind: "unsub", ID: fmt.Sprintf("u%d", seq), PauseUS: pause(r)})
@@ -284,7 +303,7 @@ func TestCheck(t *testing.T) {
 	run := vlib.Start(t, "C02", "exploration")
 	defer run.Finish()
 	run.Rule("histories over one websocket connection (scripted JSONSocket) against a schemabuilder schema over a mutable store: 14-40 steps of subscribe (ids from a pool of 5, reused after unsubscribe; 1-6 fields over scalars, nullable object, keyed lists (nested), unkeyed object/scalar/nested lists, unions with and without key, union lists, slow and Expensive fields), " +
-		"subscribe with a live id, unsubscribe (live / unknown id), mutate (own id namespace), echo, direct writes, write bursts, gate steps (a resolver of an in-flight run is held after AddDependency or after reading while 1-3 further writes, optionally an unsubscribe or a mutation, land), transient resolver failures on re-runs, plus 0-2 writes injected at named hook points; case 0 is a pinned history (unsubscribe during an in-flight run, id re-subscribed while the run's own asynchronous close is pending); " +
+		"subscribe with a live id, unsubscribe (live / unknown id), mutate (own id namespace), echo, direct writes, write bursts, gate steps (a resolver of an in-flight run is held after AddDependency or after reading while 1-3 further writes, optionally an unsubscribe or a mutation, land), transient resolver failures on re-runs, unsubscribe-all sent a fraction of the write-then-read delay after a write that invalidates an idle subscription (reactive.WriteThenReadDelay is 0 in half of the histories, 0.5-3 ms in the rest), plus 0-2 writes injected at named hook points; case 0 is a pinned history (unsubscribe during an in-flight run, id re-subscribed while the run's own asynchronous close is pending); " +
 		"cells notify by Invalidate-and-replace, Strobe, or per-read resources (seeded per cell); seeded pacing and yield-hook perturbation. " +
 		"Non-trivial = >= 2 writes logged while a subscription execution was in flight AND >= 1 non-initial update with a structural delta (reorder / removal / object, list or null replacement). Distinct = step-kind sequence + set of non-initial delta shapes.")
 	run.Assume("store cells follow the discipline AddDependency(resource) then read; writers change the value then Invalidate/Strobe; a resource released by its last dependant is replaced (thunder releases = permanently invalidates it)")
